@@ -58,6 +58,9 @@ trait PoolFace: Send + Sync {
 struct SecureFace {
     held: Mutex<HashMap<usize, SecurePooledPtr>>,
     pool: Arc<SecureMemoryPool>,
+    /// local_cache_size == 0: every freed chunk goes to the shared stack, so at quiescence every chunk ever created
+    /// (= pool_misses) that is not live must be obtainable again without a new miss ("no block is lost")
+    no_cache: bool,
 }
 impl PoolFace for SecureFace {
     fn alloc(&self) -> Result<usize, String> {
@@ -84,6 +87,26 @@ impl PoolFace for SecureFace {
         check!(s.corruption_detected == 0 && s.double_free_detected == 0, "counters", "corruption_detected={} double_free_detected={}", s.corruption_detected, s.double_free_detected);
         if let Err(e) = self.pool.validate() {
             return Err(Fail::new("validate", format!("pool.validate() failed at quiescence: {e}")));
+        }
+        if self.no_cache {
+            let created = s.pool_misses as usize;
+            check!(created >= live, "harness", "pool_misses {created} < live {live}");
+            let want = created - live;
+            let mut got = Vec::new();
+            for _ in 0..want {
+                match self.pool.allocate() {
+                    Ok(p) => got.push(p),
+                    Err(_) => break,
+                }
+            }
+            let after = self.pool.stats();
+            let new_misses = after.pool_misses - s.pool_misses;
+            drop(got);
+            check!(
+                new_misses == 0,
+                "block_lost",
+                "{created} chunks were created, {live} are live, so {want} must be in the shared stack; taking {want} chunks needed {new_misses} fresh one(s): that many freed chunks never became available again"
+            );
         }
         Ok(())
     }
@@ -446,7 +469,7 @@ fn secure_face() -> Arc<dyn PoolFace> {
     cfg.enable_cache_alignment = false;
     cfg.enable_hot_cold_separation = false;
     cfg.enable_huge_pages = false;
-    Arc::new(SecureFace { pool: SecureMemoryPool::new(cfg).expect("secure pool"), held: Mutex::new(HashMap::new()) })
+    Arc::new(SecureFace { pool: SecureMemoryPool::new(cfg).expect("secure pool"), held: Mutex::new(HashMap::new()), no_cache: false })
 }
 fn lf_face() -> Arc<dyn PoolFace> {
     let cfg = LockFreePoolConfig {
@@ -536,7 +559,7 @@ fn secure_face_with(local_cache: usize) -> Arc<dyn PoolFace> {
     cfg.enable_cache_alignment = false;
     cfg.enable_hot_cold_separation = false;
     cfg.enable_huge_pages = false;
-    Arc::new(SecureFace { pool: SecureMemoryPool::new(cfg).expect("secure pool"), held: Mutex::new(HashMap::new()) })
+    Arc::new(SecureFace { pool: SecureMemoryPool::new(cfg).expect("secure pool"), held: Mutex::new(HashMap::new()), no_cache: local_cache == 0 })
 }
 fn secure_face_nocache() -> Arc<dyn PoolFace> {
     secure_face_with(0)
@@ -557,6 +580,78 @@ fn fc_face() -> Arc<dyn PoolFace> {
 }
 fn fc_face_lazy() -> Arc<dyn PoolFace> {
     fc_face_with(false)
+}
+
+// ---- auxiliary: free-running stress (SAMPLING — see zverif::stress) -------------------------------
+
+fn pool_stress(make: fn() -> Arc<dyn PoolFace>, budget: std::time::Duration) -> Result<u64, Fail> {
+    use std::sync::atomic::{AtomicBool, AtomicU64 as A64, Ordering::SeqCst};
+    zalloc::set_quarantine(false);
+    let face = make();
+    let stop = Arc::new(AtomicBool::new(false));
+    let fail: Arc<Mutex<Option<Fail>>> = Arc::new(Mutex::new(None));
+    let owners: Arc<Mutex<HashMap<usize, usize>>> = Arc::new(Mutex::new(HashMap::new()));
+    let iters = Arc::new(A64::new(0));
+    let mut hs = Vec::new();
+    for tid in 0..3usize {
+        let (face, stop, fail, owners, iters) = (face.clone(), stop.clone(), fail.clone(), owners.clone(), iters.clone());
+        hs.push(std::thread::spawn(move || {
+            let mut mine: Vec<usize> = Vec::new();
+            let mut n = 0u64;
+            while !stop.load(SeqCst) {
+                n += 1;
+                // hold 0..=2 blocks: allocate while fewer than (n % 3) are held, otherwise free the oldest
+                if mine.len() < (n % 3) as usize + 1 && mine.len() < 2 {
+                    if let Ok(b) = face.alloc() {
+                        let mut o = owners.lock().unwrap();
+                        if let Some(other) = o.insert(b, tid) {
+                            let mut g = fail.lock().unwrap();
+                            g.get_or_insert(Fail::new("double_ownership", format!("thread {tid} was handed a block that thread {other} still owns")).with_class("stress"));
+                            stop.store(true, SeqCst);
+                        }
+                        drop(o);
+                        mine.push(b);
+                    }
+                } else if !mine.is_empty() {
+                    let b = mine.remove(0);
+                    owners.lock().unwrap().remove(&b);
+                    if let Err(e) = face.free(b) {
+                        let mut g = fail.lock().unwrap();
+                        g.get_or_insert(Fail::new("free_failed", format!("thread {tid}: freeing a block it owns failed: {e}")).with_class("stress"));
+                        stop.store(true, SeqCst);
+                    }
+                }
+            }
+            // return everything before the counters are compared
+            for b in mine {
+                owners.lock().unwrap().remove(&b);
+                let _ = face.free(b);
+            }
+            iters.fetch_add(n, SeqCst);
+        }));
+    }
+    std::thread::sleep(budget);
+    stop.store(true, SeqCst);
+    for h in hs {
+        let _ = h.join();
+    }
+    if let Some(f) = fail.lock().unwrap().take() {
+        return Err(f);
+    }
+    face.quiescent_check(0).map_err(|mut f| {
+        f.class = "stress".into();
+        f
+    })?;
+    if let Some(n) = face.population() {
+        let mut got = 0usize;
+        while got < n + 2 && face.alloc().is_ok() {
+            got += 1;
+        }
+        if got != n {
+            return Err(Fail::new("block_lost", format!("fixed population {n}: after all threads returned their blocks {got} can be obtained")).with_class("stress"));
+        }
+    }
+    Ok(iters.load(SeqCst))
 }
 
 fn main() {
@@ -646,6 +741,22 @@ fn main() {
             bound_thorough: 3,
             uaf_site: None,
         }));
+        for (pname, mk) in [
+            ("SecureMemoryPool[local_cache=0]", secure_face_nocache as fn() -> Arc<dyn PoolFace>),
+            ("SecureMemoryPool[local_cache=1]", secure_face),
+            ("LockFreeMemoryPool[2 KiB]", lf_face_small),
+            ("five_level::LockFreePool[2 KiB]", fl_face_small),
+            ("FixedCapacityMemoryPool[3 blocks, lazy init]", fc_face_lazy),
+            ("MemoryPool[max_chunks=2]", mp_face),
+        ] {
+            reg.add(zverif::stress::Stress(zverif::stress::StressSpec {
+                name: format!("{pname} free-running stress (sampling)"),
+                describe: "3 uncontrolled threads allocate and free (0-2 blocks held each) on one pool; a block handed to a thread while another owns it, a failing free of an owned block, and - after all threads returned their blocks and were joined - the pool's counters and (where known) its population are checked. Catches races INSIDE one schedule step of E3".into(),
+                run: Box::new(move |d| pool_stress(mk, d)),
+                budget_quick_ms: 700,
+                budget_thorough_ms: 8000,
+            }));
+        }
         reg.add(Sched(PoolSpec { name: "five_level::MutexBasedPool H5: 2 threads (control)", make: mx_face, prefill: 3, threads: aba2.clone(), bound_quick: 2, bound_thorough: 4, uaf_site: None }));
     });
 }
